@@ -54,7 +54,9 @@ func (r *Router) route(s Sender, p stanza.Packet) {
 		}
 	}
 	iq, isIq := p.(*stanza.IQ)
-	if isIq {
+	// Only a result or an error is a response: a request of the peer that happens to carry the id
+	// of one of our pending requests (ids are only unique per sender) is routed like any request.
+	if isIq && (iq.Type == stanza.IQTypeResult || iq.Type == stanza.IQTypeError) {
 		// Look the pending request up and unregister it in one step, so that of two
 		// responses with the same id only the first one is delivered to the caller.
 		r.IQResultRouteLock.Lock()
